@@ -15,6 +15,7 @@ var c27Allowable = []string{
 	"https://cupola.query-farm.services", "http://::1", "https://[::1]", "http://localhost:3000",
 	"https://ALLOWED.example", "https://allowed.example/", "https://xn--caf-dma.example", "https://caf\xc3\xa9.example",
 	"http://10.0.0.1", "https://a%b.example", "",
+	"https://allowed.example:443", "http://app.test:80", "HTTPS://Allowed.Example:8443", " https://allowed.example:8443 ", "https://allowed.example:8443/", "https://port.example:9443",
 }
 
 func c27GenAllow(r *Rng) []string {
@@ -23,8 +24,10 @@ func c27GenAllow(r *Rng) []string {
 	var out []string
 	for i := 0; i < n; i++ {
 		a := Pick(r, c27Allowable)
-		if r.Chance(70) {
+		if r.Chance(60) {
 			a = c27Allowable[r.Intn(5)]
+		} else if r.Chance(35) {
+			a = Pick(r, []string{"https://allowed.example:8443", "http://app.test:3000", "https://port.example:9443", "https://allowed.example:443", "http://app.test:80"})
 		}
 		if !seen[a] {
 			seen[a] = true
@@ -78,6 +81,21 @@ func c27GenIPv6(r *Rng) string {
 	return b.String()
 }
 
+// c27PortVariant takes an allowlist entry and returns the same scheme+host with the port dropped,
+// replaced or (for a port-less entry) added: the entries that name a port must match on it.
+func c27PortVariant(r *Rng, entry string) string {
+	i := strings.Index(entry, "://")
+	if i < 0 {
+		return entry
+	}
+	host := strings.TrimSuffix(strings.TrimSpace(entry[i+3:]), "/")
+	scheme := strings.TrimSpace(entry[:i])
+	if j := strings.LastIndex(host, ":"); j >= 0 && !strings.Contains(host[j:], "]") {
+		host = host[:j]
+	}
+	return scheme + "://" + host + Pick(r, []string{"", "", ":8443", ":9999", ":443", ":80", ":3000", ":1", ":", ":08443", ":9443"})
+}
+
 // c27GenURL draws a URL-ish string from a component grammar, steering toward the allowlist.
 func c27GenURL(r *Rng, allow []string) string {
 	hosts := []string{"allowed.example", "app.test", "cupola.query-farm.services", "localhost", "127.0.0.1", "[::1]", "evil.example",
@@ -92,7 +110,8 @@ func c27GenURL(r *Rng, allow []string) string {
 	}
 	if r.Chance(30) {
 		// well-formed candidates around the allowlist: scheme/host/port recombined
-		base := Pick(r, append([]string{"http://localhost", "http://127.0.0.1", "http://localhost:5173", "https://localhost", "http://[::1]:3000", "https://evil.example"}, allow...))
+		base := Pick(r, append([]string{"http://localhost", "http://127.0.0.1", "http://localhost:5173", "https://localhost", "http://[::1]:3000", "https://evil.example",
+			"http://127.0.0.1.evil.example", "http://127.evil.example:8080", "http://127.0.0.2", "http://127.1", "http://localhost.evil.example", "http://localhostevil.example", "http://evil.example/localhost", "http://0.0.0.0", "http://[::ffff:127.0.0.1]"}, allow...))
 		if r.Chance(30) {
 			if i := strings.Index(base, "://"); i >= 0 {
 				base = Pick(r, []string{"http", "https", "HTTPS", "Http"}) + base[i:]
@@ -100,6 +119,8 @@ func c27GenURL(r *Rng, allow []string) string {
 		}
 		if r.Chance(25) {
 			base += Pick(r, []string{":8443", ":3000", ":80", ":", ":443", ":08443"})
+		} else if r.Chance(40) && len(allow) > 0 {
+			base = c27PortVariant(r, Pick(r, allow))
 		}
 		if r.Chance(15) {
 			if i := strings.Index(base, "://"); i >= 0 {
@@ -312,6 +333,8 @@ func c27GenFlowReturn(r *Rng, allow []string) string {
 			u = base + Pick(r, []string{"", "/", "/app", "/app?x=1", "/app#frag", "/app?x=1#a=b", ":9999/x", "/cb?next=https://evil.example", "#"})
 		case 3:
 			u = ""
+		case 4:
+			u = c27PortVariant(r, Pick(r, allow)) + Pick(r, []string{"", "/", "/app", "/app?x=1#frag"})
 		default:
 			u = c27GenURL(r, allow)
 		}
